@@ -13,7 +13,7 @@ import (
 func init() {
 	Registry["C14"] = C14
 	Metas["C14"] = Meta{
-		Explanation: "Decides the access discipline C14 anchors, for every memory access reachable from the public API (the exported functions and methods of package cache, and every method of the two map types that the public cache.Map / cache.MapOf interfaces list; exported methods of the internal types that are not in those interfaces, such as Stats, are out of scope and listed as such): (A1) every write to a word that lock-free readers or other goroutines can read (bucket slots, meta/top-hash word, chain link, table pointer, resize flag, counter stripes) is a sync/atomic operation, or a plain store into an object allocated by the current activation that no instruction able to reach the store has yet published (checked through call sites for the plain-append / plain-counter helpers); (A2) every read of such a word is atomic, or plain with the bucket lock of that very chain in the must-lockset (the accessed bucket derives from the locked root; the lock taken is a chain's root bucket lock, never that of a bucket reached through a link), or on an unpublished object; (A3) immutable-after-publication fields (table header, immutable entries, map and cache header fields) are written only before publication; (A4) pointers stored into slots are nil or the address of an allocation of the current call (unique live value pointers); (A5) the settings live in sync/atomic typed fields (of the cache struct or of a struct nested in it by value) and are touched only through their atomic methods, an atomic.Value with one dynamic type per cache type; (A6) variables shared with the janitor goroutine are not written after the go statement; (A7) operands of 64-bit atomics are 8-byte aligned under the 386 layout. NOT decided: the race detector's verdict on executions, races inside user callbacks or on user values, correctness of the locks themselves (C13).",
+		Explanation: "Decides the access discipline C14 anchors, for every memory access reachable from the public API (the exported functions and methods of package cache, and every method of the two map types that the public cache.Map / cache.MapOf interfaces list; exported methods of the internal types that are not in those interfaces, such as Stats, are out of scope and listed as such): (A1) every write to a word that lock-free readers or other goroutines can read (bucket slots, meta/top-hash word, chain link, table pointer, resize flag, counter stripes) is a sync/atomic operation, or a plain store into an object allocated by the current activation that no instruction able to reach the store has yet published (checked through call sites for the plain-append / plain-counter helpers); (A2) every read of such a word is atomic, or plain with the bucket lock of that very chain in the must-lockset (the accessed bucket derives from the locked root; the lock taken is a chain's root bucket lock, never that of a bucket reached through a link), or on an unpublished object; (A3) immutable-after-publication fields (table header, immutable entries, map and cache header fields) are written only before publication; (A4) pointers stored into slots are nil or the address of an allocation of the current call (unique live value pointers); (A5) the settings live in sync/atomic typed fields (of the cache struct or of a struct nested in it by value) and are touched only through their atomic methods, an atomic.Value with one dynamic type per cache type; (A6) variables shared with the janitor goroutine are not written after the go statement; (A7) operands of 64-bit atomics are 8-byte aligned under the 386 layout; (A8) an object taken from a sync.Pool is handed back at most once (a Put in a deferred call plus a Put on some path of the function, its closures or the helpers the object is passed to, is reported). NOT decided: the race detector's verdict on executions, races inside user callbacks or on user values, correctness of the locks themselves (C13).",
 		Rule:        "one obligation per (rule, function, access path, access kind) over all accesses in API-reachable function bodies; non-trivial = a shared-word access or settings use whose verdict depended on its lock context, atomicity or provenance",
 		Assumptions: []string{"Go memory model: sync/atomic operations and mutex/spin-lock (CAS) pairs order the accesses they guard", "C13.L1 lock pairing holds (checked separately)", "functions unreachable from the public API (Stats) are out of scope"},
 	}
@@ -33,6 +33,8 @@ func C14(r *Run) *core.Report {
 		}
 	}
 	c14Accesses(r, rep, reach)
+	c14Pools(r, rep, reach)
+	c14SharedObjects(r, rep, reach)
 	c14Settings(r, rep, reach)
 	c14Janitor(r, rep)
 	c14Align(r, rep, reach)
@@ -371,6 +373,277 @@ func isImmutableField(r *Run, a core.AddrPath) bool {
 }
 
 // ---- A5: settings in atomic.Value ----
+
+// c14Pools (A8): an object taken from a sync.Pool is handed back at most once. A Put in a deferred closure runs on
+// every return; a second Put of the same object on some path (an early-exit helper that 'releases' it too) leaves the
+// object in the pool twice, two later callers get the same memory, and their plain accesses race. Decided per Get:
+// the Put sites of the obtained pointer in the function, in its closures and in the helpers it is passed to.
+func c14Pools(r *Run, rep *core.Report, reach map[*ssa.Function]bool) {
+	isPool := func(c ssa.CallInstruction, m string) bool {
+		cal := core.Callee(c)
+		if cal == nil || cal.Name() != m || cal.Signature.Recv() == nil {
+			return false
+		}
+		pt, ok := cal.Signature.Recv().Type().(*types.Pointer)
+		if !ok {
+			return false
+		}
+		n, ok := pt.Elem().(*types.Named)
+		return ok && n.Obj().Name() == "Pool" && n.Obj().Pkg() != nil && n.Obj().Pkg().Path() == "sync"
+	}
+	nGet := map[*ssa.Function]int{}
+	for _, f := range r.P.Funcs {
+		if !reach[f] || f.Blocks == nil || f.Parent() != nil {
+			continue
+		}
+		core.Instrs(f, func(in ssa.Instruction) {
+			get, ok := in.(*ssa.Call)
+			if !ok || !isPool(get, "Get") {
+				return
+			}
+			// the values that denote the pooled object: the Get result, its type assertions, the cells it is stored in
+			obj := map[ssa.Value]bool{get: true}
+			cells := map[ssa.Value]bool{}
+			for changed := true; changed; {
+				changed = false
+				for v := range obj {
+					if v.Referrers() == nil {
+						continue
+					}
+					for _, ref := range *v.Referrers() {
+						switch y := ref.(type) {
+						case *ssa.TypeAssert:
+							if !obj[y] {
+								obj[y], changed = true, true
+							}
+						case *ssa.Extract:
+							if !obj[y] {
+								obj[y], changed = true, true
+							}
+						case *ssa.Store:
+							if y.Val == v && !cells[y.Addr] {
+								cells[y.Addr], changed = true, true
+							}
+						case *ssa.Phi:
+							if !obj[y] {
+								obj[y], changed = true, true
+							}
+						}
+					}
+				}
+			}
+			denotes := func(g *ssa.Function, v ssa.Value, binds map[*ssa.FreeVar]bool, params map[*ssa.Parameter]bool) bool {
+				v = core.StripConv(v)
+				if mi, isMI := v.(*ssa.MakeInterface); isMI {
+					v = core.StripConv(mi.X)
+				}
+				if obj[v] {
+					return true
+				}
+				if p, isP := v.(*ssa.Parameter); isP && params[p] {
+					return true
+				}
+				if fv, isFV := v.(*ssa.FreeVar); isFV && binds[fv] {
+					return true // captured by value
+				}
+				if ld, isLd := v.(*ssa.UnOp); isLd {
+					if cells[ld.X] {
+						return true
+					}
+					if fv, isFV := ld.X.(*ssa.FreeVar); isFV && binds[fv] {
+						return true
+					}
+				}
+				return false
+			}
+			type putSite struct {
+				pos      string
+				deferred bool
+			}
+			var puts []putSite
+			var scan func(g *ssa.Function, binds map[*ssa.FreeVar]bool, params map[*ssa.Parameter]bool, deferred bool, depth int)
+			scan = func(g *ssa.Function, binds map[*ssa.FreeVar]bool, params map[*ssa.Parameter]bool, deferred bool, depth int) {
+				if g == nil || g.Blocks == nil || depth > 3 {
+					return
+				}
+				core.Instrs(g, func(in2 ssa.Instruction) {
+					switch c := in2.(type) {
+					case ssa.CallInstruction:
+						_, isDefer := in2.(*ssa.Defer)
+						if isPool(c, "Put") && len(c.Common().Args) >= 2 && denotes(g, c.Common().Args[1], binds, params) {
+							puts = append(puts, putSite{r.P.InstrPos(in2), deferred || isDefer})
+							return
+						}
+						// a closure of g that captures the object (directly or through its cell)
+						if mc, isMC := c.Common().Value.(*ssa.MakeClosure); isMC {
+							cf := mc.Fn.(*ssa.Function)
+							nb := map[*ssa.FreeVar]bool{}
+							for bi, b := range mc.Bindings {
+								if bi < len(cf.FreeVars) && (cells[b] || obj[b]) {
+									nb[cf.FreeVars[bi]] = true
+								}
+								if fv, isFV := b.(*ssa.FreeVar); isFV && binds[fv] && bi < len(cf.FreeVars) {
+									nb[cf.FreeVars[bi]] = true
+								}
+							}
+							if len(nb) > 0 {
+								scan(cf, nb, nil, deferred || isDefer, depth+1)
+							}
+							return
+						}
+						// a helper the object is passed to
+						if cal := core.Callee(c); cal != nil && cal.Blocks != nil && cal != g {
+							np := map[*ssa.Parameter]bool{}
+							for ai, a := range c.Common().Args {
+								if ai < len(cal.Params) && denotes(g, a, binds, params) {
+									np[cal.Params[ai]] = true
+								}
+							}
+							if len(np) > 0 {
+								scan(cal, nil, np, deferred || isDefer, depth+1)
+							}
+						}
+					}
+				})
+			}
+			scan(f, nil, nil, false, 0)
+			nDef, nPlain := 0, 0
+			for _, p := range puts {
+				if p.deferred {
+					nDef++
+				} else {
+					nPlain++
+				}
+			}
+			nGet[f]++
+			cons := fmt.Sprintf("%s pooled object #%d", fn(f), nGet[f])
+			bad := ""
+			if nDef > 0 && nPlain > 0 {
+				bad = fmt.Sprintf("the object is handed back by a deferred call (%s), which runs on every return, and also on a path of its own (%s)", puts[0].pos, puts[len(puts)-1].pos)
+			} else if nDef > 1 {
+				bad = "the object is handed back by more than one deferred call"
+			}
+			rep.Check(bad == "", "C14.A8", cons, r.P.InstrPos(in), fmt.Sprintf("handed back at most once (%d Put site(s))", len(puts)),
+				"an object taken from a sync.Pool can be Put twice: "+bad+"; two later callers receive the same memory and their plain accesses race")
+		})
+	}
+}
+
+// c14SharedObjects (A9): an object that is not safe for concurrent use is not hung on the shared cache / map struct and
+// used from its methods: a builtin map held in a field is not updated, and no method with a pointer receiver of a type
+// from outside the module (a *rand.Rand, a *bytes.Buffer, a *list.List ...) is called on a value reached through a field
+// of the cache or map struct - other than the types of sync and sync/atomic, whose purpose is exactly that.
+func c14SharedObjects(r *Run, rep *core.Report, reach map[*ssa.Function]bool) {
+	shared := map[string]bool{}
+	for i := 0; i < 2; i++ {
+		if r.M.CacheT[i] != nil {
+			shared[r.M.CacheT[i].Obj().Name()] = true
+		}
+	}
+	for _, mm := range r.M.Maps {
+		shared[mm.Name] = true
+		shared[mm.TableT] = true
+		if mm.StateOwner != "" {
+			shared[mm.StateOwner] = true
+		}
+	}
+	// ... and the struct types of the module hung on them (a helper object in a field, by value or by pointer)
+	for changed := true; changed; {
+		changed = false
+		for _, pk := range []*ssa.Package{r.P.Cache, r.P.Xsync} {
+			sc := pk.Pkg.Scope()
+			for _, nm := range sc.Names() {
+				tn, ok := sc.Lookup(nm).(*types.TypeName)
+				if !ok || !shared[tn.Name()] {
+					continue
+				}
+				st, ok := tn.Type().Underlying().(*types.Struct)
+				if !ok {
+					continue
+				}
+				for i := 0; i < st.NumFields(); i++ {
+					ft := st.Field(i).Type()
+					if p, isP := ft.(*types.Pointer); isP {
+						ft = p.Elem()
+					}
+					if n, isN := ft.(*types.Named); isN && n.Obj().Pkg() != nil && (n.Obj().Pkg() == r.P.Cache.Pkg || n.Obj().Pkg() == r.P.Xsync.Pkg) {
+						if _, isSt := n.Underlying().(*types.Struct); isSt && !shared[n.Obj().Name()] && !isBucketOwner(r, n.Obj().Name()) {
+							shared[n.Obj().Name()] = true
+							changed = true
+						}
+					}
+				}
+			}
+		}
+	}
+	var fromSharedField func(v ssa.Value, d int) (bool, string)
+	fromSharedField = func(v ssa.Value, d int) (bool, string) {
+		if v == nil || d > 6 {
+			return false, ""
+		}
+		v = core.StripConv(v)
+		switch x := v.(type) {
+		case *ssa.FieldAddr:
+			a := core.Addr(x)
+			if shared[a.Owner] && a.Field != "" {
+				return true, a.Key()
+			}
+			return fromSharedField(x.X, d+1)
+		case *ssa.UnOp:
+			return fromSharedField(x.X, d+1)
+		case *ssa.Phi:
+			for _, e := range x.Edges {
+				if ok, k := fromSharedField(e, d+1); ok {
+					return true, k
+				}
+			}
+		}
+		return false, ""
+	}
+	n := 0
+	for _, f := range r.P.Funcs {
+		if !reach[f] || f.Blocks == nil || (f.Pkg != r.P.Cache && f.Pkg != r.P.Xsync) {
+			continue
+		}
+		n++
+		seen := map[string]bool{}
+		core.Instrs(f, func(in ssa.Instruction) {
+			switch x := in.(type) {
+			case *ssa.MapUpdate:
+				if ok, k := fromSharedField(x.Map, 0); ok && !seen["map "+k] {
+					seen["map "+k] = true
+					rep.Fail("C14.A9", fn(f)+" updates the map in "+k, r.P.InstrPos(in), "a builtin map held in a field of the shared struct is updated by a method: concurrent calls race on it (builtin maps are not safe for concurrent use)")
+				}
+			case ssa.CallInstruction:
+				cal := core.Callee(x)
+				if cal == nil || cal.Blocks != nil || cal.Signature.Recv() == nil || len(x.Common().Args) == 0 {
+					return
+				}
+				pt, isPtr := cal.Signature.Recv().Type().(*types.Pointer)
+				if !isPtr {
+					return
+				}
+				nt, isN := pt.Elem().(*types.Named)
+				if !isN || nt.Obj().Pkg() == nil {
+					return
+				}
+				switch nt.Obj().Pkg().Path() {
+				case "sync", "sync/atomic":
+					return
+				}
+				if ok, k := fromSharedField(x.Common().Args[0], 0); ok {
+					key := nt.Obj().Pkg().Path() + "." + nt.Obj().Name() + " in " + k
+					if !seen[key] {
+						seen[key] = true
+						rep.Fail("C14.A9", fn(f)+" calls a method of the "+nt.Obj().Pkg().Path()+"."+nt.Obj().Name()+" in "+k, r.P.InstrPos(in),
+							"a method with a pointer receiver of "+nt.Obj().Pkg().Path()+"."+nt.Obj().Name()+" is called on an object reached through a field of the shared struct: unless that type is documented safe for concurrent use (the types of sync and sync/atomic are; a *rand.Rand, a *bytes.Buffer are not) concurrent calls race inside it")
+					}
+				}
+			}
+		})
+	}
+	rep.MinCount("C14.A9", "functions scanned for shared non-synchronised objects", n, 60)
+}
 
 // holdsAtomicField: the struct type has a sync/atomic typed field, directly or in a struct nested by value (a plain
 // record nested in the cache struct - an id, a name, a creation time - may be copied freely).
